@@ -311,6 +311,37 @@ theorem C06_D33_refutes_statement : ¬ C06_yank_pop_most_recent_statement := by
   revert this
   decide
 
+/-! ### yank with a numeric argument (D15, repaired) -/
+
+/-- **Counted yank, then yank-pop.** `KillRing::yank_n n` (= `yank` followed by `yankCount n`) answers the
+    most recent kill and records the byte length of the `n` copies the editor inserts, and the yank-pop
+    that directly follows asks to replace exactly that many bytes by the previous slot. -/
+theorem C06_yank_count_pop (k : KillRing) (h : WF k) (hne : k.slots ≠ []) (n : Nat) :
+    ∃ k1 text s, k.yank = .ok (k1, some text) ∧
+      (k1.yankCount n).lastAction = .yank (blen (List.replicate n text).flatten) ∧
+      (k1.yankCount n).yankPop =
+        .ok ({ (k1.yankCount n) with index := prevIdx (k1.yankCount n), lastAction := .yank (blen s) },
+             some (blen (List.replicate n text).flatten, s)) := by
+  rcases yank_ok h with ⟨h0, _⟩ | ⟨text, hs, hy⟩
+  · exact absurd h0 hne
+  · obtain ⟨k1', r, hy', hw1, hc1, hs1⟩ := wf_yank h
+    have hk1 : k1' = { k with lastAction := .yank (blen text) } := by
+      rw [hy] at hy'; cases hy'; rfl
+    subst hk1
+    have hla : (KillRing.yankCount { k with lastAction := .yank (blen text) } n).lastAction
+        = .yank (blen (List.replicate n text).flatten) := by
+      simp [KillRing.yankCount, blen_replicate_flatten]
+    have hwf : WF (KillRing.yankCount { k with lastAction := .yank (blen text) } n) := by
+      have : KillRing.yankCount { k with lastAction := .yank (blen text) } n
+          = { k with lastAction := .yank (blen text * n) } := by simp [KillRing.yankCount]
+      rw [this]
+      obtain ⟨a, b, c, d⟩ := hw1
+      exact ⟨a, b, c, fun hh => by cases hh⟩
+    have hne' : (KillRing.yankCount { k with lastAction := .yank (blen text) } n).slots ≠ [] := by
+      simpa [KillRing.yankCount] using hne
+    obtain ⟨s, _, hp⟩ := yankPop_ok hwf _ hla hne'
+    exact ⟨_, text, s, hy, hla, hp⟩
+
 /-! ### non-vacuity -/
 
 /-- the hypotheses of `C06_accumulate` are satisfiable, with a mixed run -/
